@@ -60,4 +60,12 @@ theorem runBatchK_all_mergeable (D : Dom α) (exp : Bool) (ex : Nat → Bool) (l
   rw [runPassK_eq (stepK2 D exp ex) (stepE ex (step2 (withKind D true) exp)) _ _
         (fun u hu s' => by simp [stepK2, h2 u hu])]
 
+/-- LeveledUpdateBatch as it was BEFORE fix 4d8d1bf: the bottom-up sweep walked every level FORWARDS
+    (`for _, updater := range updaters[i]`).  Kept only to state what the old order did. -/
+def runBatchKOld (D : Dom α) (expired : Bool) (ex : Nat → Bool) (levels : List (List (UpdK α))) (s : St α) :
+    St α × List (Write α) :=
+  let r1 := runPassK (stepK1 D expired ex) levels.flatten { s with skip := [] }
+  let r2 := runPassK (stepK2 D expired ex) levels.reverse.flatten r1.1
+  (r2.1, r1.2 ++ r2.2)
+
 end KoordVerif.C12
